@@ -21,6 +21,7 @@ import (
 	"crypto/sha256"
 	"encoding/json"
 	"fmt"
+	"math"
 	"os"
 	"os/exec"
 	"path/filepath"
@@ -47,7 +48,11 @@ type Cookie = idpsrv.Cookie
 
 // StoreOp is one operation of a pure store program.
 type StoreOp struct {
-	Op  string `json:"op"`  // get put delete list
+	// get put delete list, and two operations that must fail and leave the store usable:
+	// put_bad (Val picks a value encoding/json cannot encode: +Inf, a channel, a func, a map
+	// with bool keys) and get_bad (Val picks a target the stored JSON cannot be decoded into:
+	// a *chan, a non-pointer, a *func)
+	Op  string `json:"op"`
 	Key int    `json:"key"` // index into storeKeys (list: index into storePrefixes)
 	Val int    `json:"val,omitempty"`
 }
@@ -902,6 +907,9 @@ var kvModel = porcupine.Model{
 			}
 			delete(st, in.Key)
 			return true, encodeState(st)
+		case "put_bad", "get_bad":
+			// must report an error (get_bad on an absent key: not-found is one) and change nothing
+			return out.Err != "", state
 		case "list":
 			var ks []string
 			for k := range st {
@@ -951,6 +959,7 @@ func checkStore(c Case) pbt.Result {
 	}
 	res := pbt.Result{Classes: []string{"store", fmt.Sprintf("store:%d-clients", len(c.Clients))}}
 	writers, readers, lists := 0, 0, 0
+	failing := false
 	for _, cl := range c.Clients {
 		if len(cl) > 6 {
 			return pbt.Result{Skip: true}
@@ -964,6 +973,8 @@ func checkStore(c Case) pbt.Result {
 				r = true
 			case "list":
 				l = true
+			case "put_bad", "get_bad":
+				failing = true
 			}
 		}
 		if w {
@@ -985,17 +996,22 @@ func checkStore(c Case) pbt.Result {
 	if lists > 0 && writers > 0 {
 		res.Classes = append(res.Classes, "store:list-with-writer")
 	}
+	if failing {
+		res.Classes = append(res.Classes, "store:with-failing-operation")
+		res.NonTrivial = true
+	}
 	for rep := 0; rep < repetitions("store"); rep++ {
 		st := &samlidp.MemoryStore{}
 		var clock atomic.Int64
 		hist := make([][]porcupine.Operation, len(c.Clients))
 		start := make(chan struct{})
-		var wg sync.WaitGroup
+		gids := make([]int64, len(c.Clients))
+		finished := make([]atomic.Bool, len(c.Clients))
 		for ci, cl := range c.Clients {
 			ci, cl := ci, cl
-			wg.Add(1)
 			go func() {
-				defer wg.Done()
+				defer finished[ci].Store(true)
+				atomic.StoreInt64(&gids[ci], goid())
 				<-start
 				for _, o := range cl {
 					in := sIn{Op: o.Op, Val: o.Val}
@@ -1023,6 +1039,36 @@ func checkStore(c Case) pbt.Result {
 						if err := st.Delete(in.Key); err != nil {
 							out.Err = err.Error()
 						}
+					case "put_bad":
+						in.Key = storeKeys[clampI(o.Key, len(storeKeys))]
+						var v interface{}
+						switch o.Val % 4 {
+						case 0:
+							v = math.Inf(1)
+						case 1:
+							v = make(chan int)
+						case 2:
+							v = func() {}
+						default:
+							v = map[bool]int{true: 1}
+						}
+						if err := st.Put(in.Key, v); err != nil {
+							out.Err = err.Error()
+						}
+					case "get_bad":
+						in.Key = storeKeys[clampI(o.Key, len(storeKeys))]
+						var err error
+						switch o.Val % 3 {
+						case 0:
+							err = st.Get(in.Key, new(chan int))
+						case 1:
+							err = st.Get(in.Key, 7) // not a pointer
+						default:
+							err = st.Get(in.Key, new(func()))
+						}
+						if err != nil {
+							out.Err = err.Error()
+						}
 					case "list":
 						in.Key = storePrefixes[clampI(o.Key, len(storePrefixes))]
 						ks, err := st.List(in.Key)
@@ -1041,7 +1087,57 @@ func checkStore(c Case) pbt.Result {
 			}()
 		}
 		close(start)
-		wg.Wait()
+		// wait for the clients; a client blocked on a mutex nobody can release is a deadlock
+		// (state predicate over goroutine headers, confirmed repeatedly) - the 30 s watchdog
+		// alone only makes the case inconclusive
+		deadline := time.Now().Add(30 * time.Second)
+		stuck := 0
+		for {
+			want := map[int64]bool{}
+			for i := range finished {
+				if !finished[i].Load() {
+					want[atomic.LoadInt64(&gids[i])] = true
+				}
+			}
+			if len(want) == 0 {
+				break
+			}
+			if time.Now().After(deadline) {
+				return pbt.Result{Skip: true}
+			}
+			time.Sleep(200 * time.Microsecond)
+			if time.Until(deadline) > 29900*time.Millisecond {
+				continue
+			}
+			reasons, texts := snapshot(want)
+			all := true
+			for g := range want {
+				if g == 0 || !mutexWait(reasons[g]) {
+					all = false
+				}
+			}
+			if !all {
+				stuck = 0
+				continue
+			}
+			stuck++
+			time.Sleep(2 * time.Millisecond)
+			if stuck >= 15 {
+				var b strings.Builder
+				fmt.Fprintf(&b, "deadlock in a store program: %d client(s) are blocked on the store's mutex and every other client has finished - a lock was left held\n", len(want))
+				for g := range want {
+					b.WriteString(frames(texts[g]) + "\n")
+				}
+				js, _ := json.Marshal(c.Clients)
+				b.WriteString("program: " + string(js))
+				res.Err = b.String()
+				res.Classes = append(res.Classes, "store:deadlock")
+				if out := os.Getenv("VERIF_OUT"); out != "" && os.Getenv("VERIF_RACE_WORKER") == "1" {
+					_ = os.WriteFile(filepath.Join(out, "deadlock-seen"), []byte("1"), 0o644)
+				}
+				return res
+			}
+		}
 		var ops []porcupine.Operation
 		for _, h := range hist {
 			ops = append(ops, h...)
@@ -1378,9 +1474,12 @@ func genRace(t *rapid.T) Case {
 		n := rapid.IntRange(1, 6).Draw(t, "nops")
 		var ops []StoreOp
 		for j := 0; j < n; j++ {
-			o := StoreOp{Op: pick(t, "op", []string{"get", "put", "delete", "list", "put", "get"}), Key: rapid.IntRange(0, 2).Draw(t, "key")}
-			if o.Op == "put" {
+			o := StoreOp{Op: pick(t, "op", []string{"get", "put", "delete", "list", "put", "get", "put_bad", "get_bad"}), Key: rapid.IntRange(0, 2).Draw(t, "key")}
+			switch o.Op {
+			case "put":
 				o.Val = rapid.IntRange(1, 9).Draw(t, "val")
+			case "put_bad", "get_bad":
+				o.Val = rapid.IntRange(0, 3).Draw(t, "bad-kind")
 			}
 			ops = append(ops, o)
 		}
@@ -1460,6 +1559,28 @@ func enumPairs(tier string, emit func(Case)) {
 	}
 }
 
+// enumFailingStoreOps: every unencodable value / undecodable target at every position of a short
+// program, alone and next to a second client: the failing operation reports an error, the
+// store stays usable and the rest is linearizable as if it had never happened.
+func enumFailingStoreOps(_ string, emit func(Case)) {
+	base := []StoreOp{{Op: "put", Key: 0, Val: 1}, {Op: "get", Key: 0}, {Op: "put", Key: 0, Val: 2}, {Op: "list", Key: 0}, {Op: "delete", Key: 0}}
+	other := []StoreOp{{Op: "get", Key: 0}, {Op: "put", Key: 1, Val: 3}, {Op: "list", Key: 2}, {Op: "get", Key: 1}}
+	for _, bad := range []string{"put_bad", "get_bad"} {
+		kinds := 4
+		if bad == "get_bad" {
+			kinds = 3
+		}
+		for k := 0; k < kinds; k++ {
+			for pos := 0; pos <= len(base); pos++ {
+				prog := append(append(append([]StoreOp(nil), base[:pos]...), StoreOp{Op: bad, Key: pos % 2, Val: k}), base[pos:]...)
+				emit(Case{Kind: "store", Clients: [][]StoreOp{prog}})
+				emit(Case{Kind: "store", Clients: [][]StoreOp{prog, other}})
+				emit(Case{Kind: "store", Clients: [][]StoreOp{other, prog, {{Op: bad, Key: 1, Val: k}, {Op: "put", Key: 1, Val: 4}, {Op: "get", Key: 1}}}})
+			}
+		}
+	}
+}
+
 // ---------------------------------------------------------------- properties and tests
 
 var propSched = &pbt.Prop[Case]{
@@ -1467,12 +1588,12 @@ var propSched = &pbt.Prop[Case]{
 	Rule: "sched: a seeded store (1-3 users, 1-3 services over 4 metadata variants, 1-2 shortcuts), 1-2 sequential logins (one possibly expired), then 2-4 concurrent requests over " +
 		"{sso creds/cookie, launch, login, put/del/get/list service, put/del/get/list user, put/del/get/list shortcut, del/get/list session, metadata} run under a parking Store wrapper; the case's choice list picks which parked request proceeds at every store operation. " +
 		"Exhaustive: for every unordered pair of 36 request templates (every handler, its error paths and the readers), all choice strings of 5 (thorough 8) binary decisions. " +
-		"race job: the same mixes (2-5 requests) free-running over the bare MemoryStore and MemoryStore programs of 2-4 clients x <= 6 operations on 3 keys / 3 prefixes (porcupine, sequential map model), each run 3 times under the race detector. " +
+		"race job: the same mixes (2-5 requests) free-running over the bare MemoryStore and MemoryStore programs of 2-4 clients x <= 6 operations on 3 keys / 3 prefixes, including Puts of unencodable values and Gets into undecodable targets that must fail and leave the store usable (porcupine, sequential map model; deadlock predicate), each run 3 times under the race detector. " +
 		"non-trivial: at least two requests touch the registry lock or the same store key and one of them writes; store programs with >= 2 clients and a writer. distinct: sha256 of the JSON case.",
 	Gen:   genSched,
 	Check: check,
 	Reset: fix.Reset,
-	Enums: []pbt.Enum[Case]{{Name: "grant-orders-for-request-pairs", Each: enumPairs}},
+	Enums: []pbt.Enum[Case]{{Name: "grant-orders-for-request-pairs", Each: enumPairs}, {Name: "store-programs-with-failing-operations", Each: enumFailingStoreOps}},
 	Assumptions: []string{
 		"schedule control is at store-operation granularity: a granted request runs until its next store operation, its end, or a mutex it cannot get",
 		"quiescence and deadlock are decided from runtime.Stack(all) goroutine headers (wait reasons sync.RWMutex.RLock, sync.RWMutex.Lock, sync.Mutex.Lock); a watchdog expiry is inconclusive (case skipped), never a verdict",
@@ -1485,6 +1606,7 @@ var propRace = &pbt.Prop[Case]{
 	ID:          "C20",
 	Rule:        propSched.Rule,
 	Gen:         genRace,
+	Enums:       []pbt.Enum[Case]{{Name: "store-programs-with-failing-operations", Each: enumFailingStoreOps}},
 	Check:       checkNoting,
 	Reset:       fix.Reset,
 	Assumptions: propSched.Assumptions,
